@@ -64,6 +64,7 @@ type Run struct {
 	samples      []any
 	sampleSeen   int
 	violations   []Violation
+	sigCount     map[string]int
 	violationCnt int64
 	inconclusive []string
 	harnessErr   string
@@ -277,7 +278,13 @@ func (r *Run) LogCase(worker int, data []byte) {
 func (r *Run) Violation(signature string, witness any, detail string) {
 	r.mu.Lock()
 	r.violationCnt++
-	if len(r.violations) < MaxViolations {
+	if r.sigCount == nil {
+		r.sigCount = map[string]int{}
+	}
+	r.sigCount[signature]++
+	// at most 4 witnesses per signature (so that a listed known finding cannot crowd out a
+	// different violation), MaxViolations of the first signature, 40 in all
+	if (r.sigCount[signature] <= 4 || len(r.sigCount) == 1) && len(r.violations) < 40 && (len(r.violations) < MaxViolations || r.sigCount[signature] <= 4) {
 		v := Violation{Signature: signature, Witness: witness, Detail: detail}
 		r.violations = append(r.violations, v)
 		// also append to a side file at once: a later process-fatal event must not lose it
